@@ -258,6 +258,35 @@ Definition site_segdir (D H idx sid suf : list N) : list N :=
 Definition site_active_dir (D H idx : list N) : list N :=
   D ++ H ++ [SL] ++ s_final ++ [SL] ++ idx ++ [SL].
 
+(* delete-index (pkg/es/writer/esBulkHandler.go deleteIndex): the requested name / pattern is
+   EXPANDED first (vtable.ExpandAndReturnIndexNames: "*", wildcards, aliases, comma lists) against
+   the org's virtual-table list L, and every expanded name that passes
+       IsSafePathComponent(name) && IsVirtualTablePresent(name)
+   has <data>/<host>/final/<name>/ removed with os.RemoveAll.  L is whatever the names file
+   holds: names written before the validator existed, synced from other nodes, or registered by
+   an entry point that did not validate — NOT necessarily safe components.  [expanded] is the
+   result of the expansion, whatever its semantics. *)
+Definition delete_index_removed (D H : list N) (L expanded : list (list N)) : list (list N) :=
+  map (site_active_dir D H) (filter (fun n => index_ok n && mem n L) expanded).
+
+(* documentation of seeded defect C19c: only the REQUESTED name is validated, once, up front *)
+Definition delete_index_removed_reqonly (D H req : list N) (L expanded : list (list N)) : list (list N) :=
+  if index_ok req then map (site_active_dir D H) (filter (fun n => mem n L) expanded) else [].
+
+(* the expansion of the pattern forms the harness uses: "*" = the whole list, "*sfx" = names
+   ending in sfx (sfx without regexp metacharacters), otherwise the name itself *)
+Definition expand_simple (pat : list N) (L : list (list N)) : list (list N) :=
+  match pat with
+  | 42 :: sfx => filter (fun n => has_suffix n sfx) L
+  | _ => [pat]
+  end.
+
+(* registration (vtable.AddVirtualTable / addVirtualTableHelper / AddMapping, since fix
+   C19-validate-index-registration): a name that is not a safe component is never added to the
+   list and never names a mapping file *)
+Definition register_index (L : list (list N)) (name : list N) : list (list N) :=
+  if index_ok name then (if mem name L then L else L ++ [name]) else L.
+
 (* virtual table mapping / alias files: VTable{Mappings,Aliases}Dir + [orgid + "/"] + name + ".json"
    org = "" for orgid 0, else its decimal *)
 Definition org_pfx (org : list N) : list N := match org with [] => [] | _ => org ++ [SL] end.
